@@ -17,7 +17,7 @@ import GoframeModel.Ops.Apply
 namespace Goframe
 
 /-- column-wise / row-wise `Apply` callbacks -/
-inductive ApplyFn | copy | reverse | constInt | count | first | strs | ints | bools
+inductive ApplyFn | copy | reverse | constInt | count | first | strs | ints | bools | ident
   deriving DecidableEq, Repr
 
 def ApplyFn.eval : ApplyFn → List Cell → ApplyRes
@@ -31,6 +31,7 @@ def ApplyFn.eval : ApplyFn → List Cell → ApplyRes
   | .strs, xs => .slice (xs.map (fun _ => .str [115]))
   | .ints, xs => .slice ((List.range xs.length).map (fun (i : Nat) => .int .int (i : Int)))
   | .bools, xs => .slice (xs.map (fun c => .bool c.isNil))
+  | .ident, xs => .slice xs            -- returns the very slice it was given
 
 inductive GroupAgg | sum | mean | count
   deriving DecidableEq, Repr
